@@ -134,6 +134,21 @@ def r1_bits(ctx, F, rule='C11-R1'):
                         ev = sw.edges_for('Eventually')
                         if ev and init_body.edges_dominate(ev, c.bb):
                             ok2 = True
+                if not ok2:
+                    # ... or asked with `==`: `p.expectation == Expectation::Eventually`
+                    from c07 import promoted_variant
+                    for q in init_body.calls_to('PartialEq::eq', 'PartialEq::ne'):
+                        vs = [init_body.val(a) for a in q.args[:2]]
+                        if not any(noref(v).fields()[-1:] == ('.expectation',) for v in vs):
+                            continue
+                        pv = None
+                        for v in vs:
+                            for x in (v, noref(v)):
+                                pv = pv or promoted_variant(init_body, V(x.kind, x.key))
+                        is_eq = q.is_('PartialEq::eq')
+                        ev = init_body.branch(q, is_eq)
+                        if pv == 'Eventually' and ev and init_body.edges_dominate(ev, c.bb):
+                            ok2 = True
                 ctx.check(ok1 and ok2, rule, 'initial-bits', init_body,
                           good='initial bit set for exactly the Eventually properties, by enumeration index',
                           bad='%s: initial eventually bits are not set by enumeration index under '
